@@ -30,8 +30,7 @@ CONSTANTS NDev,          \* device instances 1..NDev (instance 1 is the one unde
           PacketSizes,   \* set of packet sizes in cells
           NScripts,      \* the first NScripts entries of AllScripts are used as short-write scripts
           MaxFaultAt,    \* faults: none, or the k-th fallible OS call for k in 1..MaxFaultAt, transient or persistent
-          FIXED,
-          Export         \* TRUE: keep the history of calls (witness paths for the replay export)
+          FIXED
 
 Devs == 1..NDev
 AllScripts == << <<>>, <<"H">>, <<"Z", "H">>, <<"Z", "Z", "Z">>, <<"S1", "Z", "S1">>, <<"H", "H">>, <<"Z", "Z", "S1", "Z">> >>
